@@ -125,6 +125,43 @@ func TestVerifC16(t *testing.T) {
 			vio.emit("%s", vfC16ConcurrentTOTP(t, state, n))
 			continue
 		}
+		if len(f) == 6 && f[0] == "triple" {
+			vfC16Fixture(t, state, f[1])
+			var hs [3]http.HandlerFunc
+			var rs [3]*http.Request
+			okAll := true
+			for i := 0; i < 3; i++ {
+				h, r, ok := vfC16Request(t, state, f[2+i])
+				hs[i], rs[i], okAll = h, r, okAll && ok
+			}
+			if !okAll {
+				vio.emit("bad-op")
+				continue
+			}
+			var sched []string
+			for _, c := range f[5] {
+				sched = append(sched, string(c))
+			}
+			var cmu sync.Mutex
+			codes := map[string]int{}
+			tasks := map[string]*vfTask{}
+			for i, name := range []string{"A", "B", "C"} {
+				i, name := i, name
+				tasks[name] = &vfTask{name: name, run: func() {
+					rr, p := vfServe(hs[i], rs[i])
+					cmu.Lock()
+					if p != nil {
+						codes[name] = -1
+					} else {
+						codes[name] = rr.Code
+					}
+					cmu.Unlock()
+				}}
+			}
+			trace := vfRunSchedule(t, tasks, sched)
+			vio.emit("%d %d %d %s trace=%s", codes["A"], codes["B"], codes["C"], vfC16Digest(t, state), strings.Join(trace, ","))
+			continue
+		}
 		if len(f) != 5 || f[0] != "pair" {
 			vio.emit("bad-op")
 			continue
